@@ -231,7 +231,7 @@ pub fn owns(prop: Prop, a: &Anomaly) -> bool {
         Prop::C09 => c == "partition-mismatch" || (semantic && fam == Family::Lazy),
         Prop::C10 => c == "capacity-contract" || (semantic && fam == Family::Capacity) || matches!(c, "probe-alloc" | "probe-panic"),
         Prop::C11 => matches!(c, "clone-changed-source" | "clone-left-split" | "cross-contents-mismatch") || (semantic && fam == Family::CloneOp) || c == "eq-mismatch" || (semantic && a.op_kind == "set_algebra"),
-        Prop::C12 => semantic && fam == Family::Handle,
+        Prop::C12 => (semantic && fam == Family::Handle) || c == "keyless-replace-panic",
         Prop::C13 => (semantic || c == "iter-mismatch" || c == "partition-mismatch") && is_set_op(a),
         Prop::C17 => c == "unexpected-panic",
         Prop::C16 => (semantic || c == "serde-mismatch") && fam == Family::Serde,
